@@ -31,6 +31,15 @@ def record_witness(**kw):
 
 
 PATHS = [0]
+TRACKED = {}
+
+
+def track(vals):
+    """register the harness's symbolic inputs: if the code under test raises, they are realised
+    into the witness before the exception propagates (EXEC_ERR counterexamples need inputs too)"""
+    TRACKED.clear()
+    TRACKED.update(vals)
+
 
 
 def run(body, per_condition_timeout=120.0, per_path_timeout=60.0, max_iterations=None):
@@ -44,7 +53,16 @@ def run(body, per_condition_timeout=120.0, per_path_timeout=60.0, max_iterations
         post: _ == True
         """
         PATHS[0] += 1
-        r = body()
+        TRACKED.clear()
+        try:
+            r = body()
+        except Exception as e:
+            if TRACKED and not isinstance(e, sym.AssumptionInfeasible):
+                try:
+                    record_witness(exception="%s: %s" % (type(e).__name__, str(e)[:100]), **TRACKED)
+                except Exception:
+                    pass
+            raise
         if not sym.path_feasible():
             raise sym.AssumptionInfeasible("path condition unsatisfiable at the end of the path (vacuous path)")
         return r
